@@ -227,6 +227,23 @@ CLAIMED["C20"] = {
     "ref": "DESIGN.md section 5 (C20)",
 }
 
+CLAIMED["C18"] = {
+    "text": "Proof, C layer (vc/cvc.py: VCs generated from clang's macro-expanded AST of the working tree, fixed-width "
+            "bit-vectors, z3 + cvc5): psutil_posix_getpriority/setpriority follow the errno protocol for every int "
+            "(errno zeroed before, OSError iff the kernel reported one, carrying its errno; the value returned is the "
+            "kernel's, -1 included; exact (PRIO_PROCESS, pid[, value]) pass-through); psutil_proc_ioprio_get unpacks "
+            ">>13 / &0x1fff, psutil_proc_ioprio_set packs class<<13|data with no shift UB for any int and "
+            "unpack(pack(c,d)) == (c,d). Proof, Python layer: _pslinux ionice_set/ionice_get/nice_get/nice_set/rlimit/"
+            "cpu_affinity_set (validation before any native call, exact pass-through, EINVAL/ValueError diagnosis over "
+            "request lists of any length by loop invariant) and the front-end nice/ionice/rlimit/cpu_affinity argument "
+            "rules (level without class, [] = eligible CPUs, de-duplication).",
+    "note": "'the kernel applies exactly that value and nobody else changes' is the system calls' contract: bounded live "
+            "round trip on a child + bystander (every nice -20..19, class x level, CPU subsets, every RLIMIT_*) with the "
+            "extension rebuilt from the working tree. _get_eligible_cpus and psutil_proc_cpu_affinity_get are bounded "
+            "only. One known finding (range-less Cpus_allowed_list, pinned by an existing test).",
+    "ref": "DESIGN.md section 5 (C18)",
+}
+
 NOT_YET = "check not built yet (work in progress, see DESIGN.md section 7)"
 NA = {}
 
